@@ -88,6 +88,22 @@ def _run_case(case, st):
             chk("zombie", got, got[0] == "exc" and got[1] == "ZombieProcess", exp)
         else:
             chk("value", got, got == ("ok", exp), exp)
+            # what a caller does with a returned list is the caller's business: inside one oneshot() block, too, every call
+            # answers with the kernel's vector (name() and environ() alongside)
+            def in_block():
+                with pr.oneshot():
+                    a = pr.cmdline()
+                    a[:] = ["edited-by-the-caller"]
+                    pr.name()
+                    b = pr.cmdline()
+                    b.append("x")
+                    e1 = pr.environ()
+                    e1["EDITED"] = "1"
+                    return pr.cmdline(), pr.environ()
+            got2 = outcome(in_block)
+            env_exp = outcome(pr.environ)
+            chk("value-in-oneshot-after-the-caller-edited-an-earlier-answer", got2,
+                got2[0] == "ok" and got2[1][0] == exp and env_exp[0] == "ok" and got2[1][1] == env_exp[1], exp)
         if zombie:
             # restore
             p.zombie = False
